@@ -37,10 +37,13 @@ FirstBadRun(R) == LET bad == {i \in DOMAIN R.runs : RealWhy(R, R.runs[i]) # "ok"
 
 Judge ==
   LET R == T[tid]
-      specWhy == IF R.refused \/ Run(R.base).st # "stop" \/ R.mode \in {"num_first_keep", "num_append_pop"} THEN "ok"   \* (the numeric-argument variants are judged on the real loads only)          \* base outside the typed domain of the VM spec: no spec-level verdict
+      \* callee variants ("std_" prefix: the same helpers told to call a harmless standard-library callable that is on no
+      \* deny list) are judged on the verdict clause only - the property says the rewritten pickle is NEVER rated LIKELY_SAFE
+      std == R.callee # "sink"
+      specWhy == IF std \/ R.refused \/ Run(R.base).st # "stop" \/ R.mode \in {"num_first_keep", "num_append_pop"} THEN "ok"   \* (the numeric-argument variants are judged on the real loads only)          \* base outside the typed domain of the VM spec: no spec-level verdict
                  ELSE IF R.mode \in FnModes THEN FnWhy(R.base, R.new, R.mode) ELSE InjWhy(R.base, R.new, R.mode)
-      fb == IF R.refused \/ ~R.base_loads THEN 0 ELSE FirstBadRun(R)
-      drift == IF R.refused \/ R.mode \in {"num_first_keep", "num_append_pop"} THEN FALSE
+      fb == IF std \/ R.refused \/ ~R.base_loads THEN 0 ELSE FirstBadRun(R)
+      drift == IF std \/ R.refused \/ R.mode \in {"num_first_keep", "num_append_pop"} THEN FALSE
                ELSE IF R.mode \in FnModes THEN R.new # RewriteFn(R.base, R.mode, R.fnk) ELSE R.new # Rewrite(R.base, R.mode)
   IN
   /\ ~done /\ done' = TRUE /\ UNCHANGED tid
